@@ -77,7 +77,9 @@ class MuxComp(ExplicitComponent):
             if options['shape'] is None else options['shape']
         in_size = shape_to_len(in_shape)
         out_shape = list(in_shape)
-        out_shape.insert(options['axis'], vec_size)
+        # a negative axis counts from the end of the output's dimensions, as in np.stack
+        out_shape.insert(options['axis'] if options['axis'] >= 0
+                         else options['axis'] + len(in_shape) + 1, vec_size)
         kwgs.pop('shape')
         ax = kwgs.pop('axis')
 
